@@ -373,8 +373,10 @@ PROPS['C17'].quick.append(Run('anydata_string', 'anydata_string.cpp', {}, covers
 PROPS['C17'].quick.append(_FTAD)      # (C17's thorough list is its quick list)
 _FTTH = [Run('faults_cl_threads_p3', 'cl_threads_fault.cpp', {'DISP': 0}, exc=True, faults=1, preempt=3, covers=2, mt=True, native=(), bounds='C09 x C03: CallbackList, instrumented policy; thread 1 appends / prepends a callback whose copy constructor may throw (F=1: any one of its copies), thread 2 appends concurrently; every schedule with P<=3 preemptions at the mutex / atomic hooks; the next invocation calls exactly the successfully added callbacks once each, and so does the one after a further addition (engine verdict only: no native replay of fault + thread schedules)'),
          Run('faults_disp_threads_p2', 'cl_threads_fault.cpp', {'DISP': 1}, exc=True, faults=1, preempt=2, covers=2, mt=True, native=(), bounds='the same through EventDispatcher::appendListener / prependListener / dispatch, P<=2')]
+_FTOQ = Run('faults_ordered_queue', 'faults.cpp', {'CLASS': 5}, exc=True, own_new=True, faults=1, covers=6, optional_covers=(1, 2, 3, 5), native=('clang-O1-san', 'clang-O1'),
+            bounds='EventQueue with the OrderedQueueList policy, default comparator, user Event type whose copies and operator< can throw (F=1), std::map: enqueue of a third-key event into a queue holding 0..2 events with keys out of order; a failed enqueue leaves exactly the previous events, in order')
 PROPS['C09'] = Prop(
-    quick=_FTTH + [_FTAD, _ft('faults_cl', 0, 'CallbackList with 1..3 callbacks: append / invoke / copy-construct / copy-assign / move-assign+swap', optional_covers=(3,)),
+    quick=_FTTH + [_FTOQ, _FTAD, _ft('faults_cl', 0, 'CallbackList with 1..3 callbacks: append / invoke / copy-construct / copy-assign / move-assign+swap', optional_covers=(3,)),
            _ft('faults_queue', 1, 'EventQueue with 0..3 pending events and a recycled slot: enqueue / process / processOne / processIf / peekEvent / takeEvent', optional_covers=(5,)),
            _ft('faults_disp', 2, 'EventDispatcher: append/prepend/insertListener (existing and new event), via ScopedRemover / CounterRemover / ConditionalRemover, dispatch, copy', optional_covers=(3, 5)),
            _ft('faults_hqueue', 1, 'HeterEventQueue (type-erased slots) with 0..3 pending events and a recycled slot: enqueue / process / processOne / processIf', defs={'HETERQ': None}, optional_covers=(5,)),
